@@ -9,6 +9,7 @@ mod framework;
 mod hooks;
 mod prng;
 mod w1;
+mod w2;
 
 use std::path::PathBuf;
 
@@ -17,9 +18,11 @@ use framework::{Check, Tier};
 static C01: w1::W1Check = w1::W1Check { id: "C01" };
 static C02: w1::W1Check = w1::W1Check { id: "C02" };
 static C13: w1::W1Check = w1::W1Check { id: "C13" };
+static C05: w2::W2Check = w2::W2Check { id: "C05" };
+static C12: w2::W2Check = w2::W2Check { id: "C12" };
 
 fn checks() -> Vec<&'static dyn Check> {
-    vec![&C01, &C02, &C13]
+    vec![&C01, &C02, &C13, &C05, &C12]
 }
 
 fn parse_tier(s: &str) -> Tier {
